@@ -16,7 +16,7 @@ func init() {
 	register(&PropInfo{
 		ID:          "C12",
 		Title:       "Query parsing is total and preserves the boolean meaning of the query",
-		Explanation: "Totality, and one meaning clause. (1) Every explicit panic reachable (static calls inside package parser) from ParseSeqQL, ParseQuery and ParseAggregationFilter is discharged: enum-guarded sinks by a finite-domain reachability over the declared seq.TokenizerType / logicalKind constants that follows the switched value through parameters to every call site and to its producer (indexType); type-switch defaults by coverage of every concrete type stored into the interface; the remaining caller-checked sinks by a frozen per-site guard that is re-checked at every call site. (2) Every input-driven recursion cycle (SCC of the static call graph reachable from the entry points and the AST walkers used by search) needs a depth parameter that grows along the cycle and is compared with a constant before an error return. (3) Every call of the parse entry points in the repository propagates the returned error. (4) FINITE: the negation push-down (propagateNot) is recovered as a decision table by conditional constant propagation over its finite input partition (operator x left-negated x right-negated, operands symbolic) and every cell is compared with the truth table of the input; buildEvalTree reads NAnd in the child order propagateNot writes; both parsers wrap the root in NOT exactly under the returned flag. (5) INDEX(const): constant-index reads of the input text are dominated by a length test. NOT decided: that the tree built by the recursive-descent parsers denotes the written expression (precedence, grouping), lexer loop termination, implicit runtime panics from variable indices and slice bounds (constant-index reads of the input text are decided, clause 5).",
+		Explanation: "Totality, and one meaning clause. (1) Every explicit panic reachable (static calls inside package parser) from ParseSeqQL, ParseQuery and ParseAggregationFilter is discharged: enum-guarded sinks by a finite-domain reachability over the declared seq.TokenizerType / logicalKind constants that follows the switched value through parameters to every call site and to its producer (indexType); type-switch defaults by coverage of every concrete type stored into the interface; the remaining caller-checked sinks by a frozen per-site guard that is re-checked at every call site. (2) Every input-driven recursion cycle (SCC of the static call graph reachable from the entry points and the AST walkers used by search) needs a depth parameter that grows along the cycle and is compared with a constant before an error return. (3) Every call of the parse entry points in the repository propagates the returned error. (4) FINITE: the negation push-down (propagateNot) is recovered as a decision table by conditional constant propagation over its finite input partition (operator x left-negated x right-negated, operands symbolic) and every cell is compared with the truth table of the input; buildEvalTree reads NAnd in the child order propagateNot writes; both parsers wrap the root in NOT exactly under the returned flag. (5) INDEX(const): constant-index reads of the input text are dominated by a length test. (6) CURSOR: the legacy parser reads and advances its cursor only after eof() answered false since the position changed. (7) unquotePrefix succeeds after its loop only with input left. NOT decided: that the tree built by the recursive-descent parsers denotes the written expression (precedence, grouping), lexer loop termination, other implicit runtime panics from variable indices and slice bounds.",
 		Assumptions: []string{"values of the enum types are declared constants (no out-of-range conversions)", "recursion through interface or function values is not followed"},
 		Obs:         c12,
 	})
@@ -209,6 +209,62 @@ func c12() []*Ob {
 				}
 				for _, f := range res.Entry {
 					c.Violation("cursor:entry:"+FuncName(f.Fn), f.Instr.Pos(), "%s %s", FuncName(f.Fn), f.What)
+				}
+			}},
+		{Prop: "C12", ID: "C12.7", Engine: "DOM", Floor: 1,
+			Desc: "the SeqQL lexer reports an unterminated quoted token instead of slicing past the end: in unquotePrefix the remaining input that is consumed character by character (the string handed to unquoteChar) is known to be non-empty at every success return that follows the unquoting loop — the loop also ends when the input runs out (a closing quote found beforehand may be an escaped one), and the counted position is then one past the end",
+			Check: func(c *Ctx) {
+				fn := c.Fn("parser.unquotePrefix")
+				if fn == nil {
+					return
+				}
+				calls := CallsIn(fn, Callee("parser.unquoteChar"))
+				if len(calls) == 0 {
+					c.Site(fn.Pos(), "unquotePrefix no longer unquotes character by character")
+					return
+				}
+				rest := calls[0].Common().Args[0] // the unconsumed input, a loop-carried value
+				l := InnermostLoop(calls[0].Block())
+				if l == nil {
+					c.Undecided("dom:unquotePrefix:loop", calls[0].Pos(), "the call of unquoteChar is not inside a loop")
+					return
+				}
+				idx := ErrorResultIndex(fn)
+				for _, b := range fn.Blocks {
+					ret, ok := b.Instrs[len(b.Instrs)-1].(*ssa.Return)
+					if !ok || idx < 0 || !IsNilConst(RetOperand(ret, idx)) {
+						continue
+					}
+					if !l.Header.Dominates(b) || l.Blocks[b] {
+						continue // success returns that do not come out of the loop (the no-escape fast path)
+					}
+					nonEmpty := false
+					for _, f := range FactsAt(b) {
+						bo, isBo := f.Cond.(*ssa.BinOp)
+						if !isBo {
+							continue
+						}
+						// rest != "" / rest == "" (false)
+						if s, isS := ConstString(bo.Y); isS && s == "" && SameValue(bo.X, rest) {
+							if (bo.Op == token.NEQ && f.Val) || (bo.Op == token.EQL && !f.Val) {
+								nonEmpty = true
+							}
+						}
+						// len(rest) > 0 and the like
+						if cl, isC := bo.X.(*ssa.Call); isC && CallName(cl) == "builtin.len" && len(cl.Call.Args) == 1 && SameValue(cl.Call.Args[0], rest) {
+							if k, isK := ConstInt(bo.Y); isK {
+								switch {
+								case bo.Op == token.GTR && k >= 0 && f.Val, bo.Op == token.NEQ && k == 0 && f.Val, bo.Op == token.EQL && k == 0 && !f.Val, bo.Op == token.GEQ && k >= 1 && f.Val, bo.Op == token.LSS && k >= 1 && !f.Val, bo.Op == token.LEQ && k >= 0 && !f.Val:
+									nonEmpty = true
+								}
+							}
+						}
+					}
+					if nonEmpty {
+						c.Site(ret.Pos(), "success after the unquoting loop only with unconsumed input left (the closing quote)")
+					} else {
+						c.Violation("dom:unquotePrefix:success-at-end-of-input", ret.Pos(), "unquotePrefix returns success after its unquoting loop without knowing that input is left: when every later quote is escaped the loop consumes the whole query, and the remainder is sliced one position past the end (panic: slice bounds out of range) instead of a syntax error")
+					}
 				}
 			}},
 		{Prop: "C12", ID: "C12.3", Engine: "ERRFLOW", Floor: 2,
